@@ -237,9 +237,14 @@ Section Conn.
     | Fuel => Fuel
     end.
 
-  (* the body of the `for e,(A,B)` loop, for the start cell `start` (= adjE2C[e][0], an unspecified element of a set) *)
+  Definition has_key (keys : list (nat * Z)) (x : nat) : bool :=
+    match lookup_last x keys with Some _ => true | None => false end.
+
+  (* the body of the `for e,(A,B)` loop, for the start cell `start` (= adjE2C[e][0], an unspecified element of a set).
+     Result: (sorted?, cells, faces).  Since the repair e464500 the two lists are sorted only when both walks
+     reached every cell and every face around the edge; otherwise they are left as they were. *)
   Definition sorted_edge (f2c : list (list nat)) (e2c_e e2f_e : list nat) (e start : nat)
-    : res (list nat * list nat) :=
+    : res (bool * list nat * list nat) :=
     match nth e edges [] with
     | [A; B] =>
         match others (nth start cells []) [A; B] with
@@ -251,12 +256,14 @@ Section Conn.
                 | Ok (cs2, fs2) =>
                     let kc := (start, 0%Z) :: keys_up cs1 ++ keys_down cs2 in
                     let kf := keys_up fs1 ++ keys_down fs2 in
-                    match sort_ids kc e2c_e, sort_ids kf e2f_e with
-                    | Ok cs, Ok fs => Ok (cs, fs)
-                    | Fuel, _ => Fuel
-                    | _, Fuel => Fuel
-                    | _, _ => Exn
-                    end
+                    if forallb (has_key kc) e2c_e && forallb (has_key kf) e2f_e
+                    then match sort_ids kc e2c_e, sort_ids kf e2f_e with
+                         | Ok cs, Ok fs => Ok (true, cs, fs)
+                         | Fuel, _ => Fuel
+                         | _, Fuel => Fuel
+                         | _, _ => Exn
+                         end
+                    else Ok (false, e2c_e, e2f_e)
                 | Exn => Exn
                 | Fuel => Fuel
                 end
